@@ -109,7 +109,7 @@ func (h *harness) runE2EOne(id int, c *tcase, sub, rsub int, rng *rand.Rand) e2e
 	lg := &cliLog{}
 	cl := &client.SCIONClient{Log: slog.New(lg)}
 	cl.Auth.Enabled = c.Cauth
-	cl.Auth.DRKeyFetcher = scion.NewFetcher(nil)
+	cl.Auth.DRKeyFetcher = scion.NewFetcher(h.dc)
 	local := udp.UDPAddr{IA: iaC, Host: &net.UDPAddr{IP: h.w.ipC}}
 	remote := udp.UDPAddr{IA: iaS, Host: &net.UDPAddr{IP: h.w.ipS[mode], Port: h.w.srvPort}}
 	var dp snet.DataplanePath = spath.Empty{}
@@ -261,7 +261,7 @@ func (h *harness) runE2EOne(id int, c *tcase, sub, rsub int, rng *rand.Rand) e2e
 		}
 	}
 	rp := parse(resp)
-	st, spi, algo, _ := rp.authState()
+	st, spi, algo, _ := rp.authState(&h.w)
 	r.RHasAuth = st != "absent"
 	r.RExpected = spi == "server" && algo == "cmac"
 	r.RMacOK = st == "ok"
